@@ -439,6 +439,12 @@ def part_decorate(ctx, shard):
             spellings.append(("wrong-power", unyt_quantity(2.0, good_units[0] ** 2 if dim != udims.dimensionless else Unit("s"))))
         except Exception:  # noqa: BLE001  (logarithmic / offset units refuse multiplication)
             ctx.count("no_product_spelling_for_dimension")
+        # the other unit system's electromagnetic counterpart (T vs G, C vs statC ...) has ANOTHER dimension: convertible,
+        # but not what the decorator states (w9: a counterpart table consulted by the dimension test)
+        for si_u, gauss_u in (("T", "G"), ("A", "statA"), ("C", "statC"), ("V", "statV"), ("ohm", "statohm")):
+            for mine, other in ((si_u, gauss_u), (gauss_u, si_u)):
+                if Unit(mine).dimensions == dim:
+                    spellings.append(("wrong-em-counterpart", unyt_quantity(2.0, other)))
         spellings.append(("bare", 2.0))
         for label, val in spellings:
             ok = label.startswith("good") or (label == "bare" and dim == udims.dimensionless)
